@@ -63,6 +63,8 @@ type cleanScn struct {
 	// RunUpdate (per config, "" | "true" | "false"): the Update option the configs carry in the RUN (not while recording):
 	// what Clean may do follows UPDATE_SNAPS and CI alone
 	RunUpdate []string `json:"update_option_of_the_configs_in_the_run,omitempty"`
+	// StandaloneOnly: every call of the program is a standalone call
+	StandaloneOnly bool `json:"only_standalone_calls,omitempty"`
 	// ForeignTmp: during Clean TMPDIR points to another file system than the snapshot directories
 	ForeignTmp bool `json:"tmpdir_on_another_file_system_during_clean,omitempty"`
 	Extra   []extraItem  `json:"extra_items"`
@@ -163,9 +165,32 @@ func genCleanScn(t *rapid.T, col *collector, so scnOpts) cleanScn {
 		}
 		if skipping {
 			st.SkipAt = rapid.IntRange(0, len(st.Calls)).Draw(t, "skipat")
-			st.SkipKind = rapid.SampledFrom([]string{"Skip", "Skipf", "SkipNow"}).Draw(t, "skipkind")
+			st.SkipKind = rapid.SampledFrom([]string{"Skip", "Skipf", "SkipNow", "SkipBare"}).Draw(t, "skipkind")
 		}
 		s.Tests = append(s.Tests, st)
+	}
+	if so.rejects && rapid.IntRange(0, 7).Draw(t, "standaloneonly") == 0 {
+		// a package that only takes standalone snapshots: no multi-entry call in the whole process
+		anySkip := false
+		for _, st := range s.Tests {
+			anySkip = anySkip || st.SkipAt >= 0
+		}
+		if !anySkip {
+			for ti := range s.Tests {
+				for ci := range s.Tests[ti].Calls {
+					c := &s.Tests[ti].Calls[ci]
+					if !c.Call.standalone() {
+						cfg := c.Call.Cfg
+						c.Call = genAnyCall(t, rapid.SampledFrom([]string{"ssnap", "sjson"}).Draw(t, "soloapi"), o, col)
+						c.Call.Cfg = cfg
+						if c.Mut != "" && c.Call.API != "sjson" {
+							c.Mut = ""
+						}
+					}
+				}
+			}
+			s.StandaloneOnly = true
+		}
 	}
 	if so.rejects {
 		for i := range s.Tests {
@@ -174,7 +199,7 @@ func genCleanScn(t *rapid.T, col *collector, so scnOpts) cleanScn {
 			}
 		}
 	}
-	if so.skips {
+	if so.skips && !s.StandaloneOnly {
 		// test 0 always addresses cfg 0 so that skipped tests never are the sole owner of a file (that is C08/K2)
 		s.Tests[0].Calls = append([]scnCall{{Call: Call{API: "snap", Cfg: 0, Vals: []Val{strVal("anchor")}}}}, s.Tests[0].Calls...)
 	}
@@ -414,6 +439,8 @@ func (s cleanScn) execute(root string, mode Mode, count int, record bool) error 
 						callSkip(func() { Skipf(ft, "skipped %d", k) })
 					case "SkipNow":
 						callSkip(func() { SkipNow(ft) })
+					case "SkipBare": // snaps.Skip(t) without a reason
+						callSkip(func() { Skip(ft) })
 					default:
 						callSkip(func() { Skip(ft, "skipped") })
 					}
@@ -838,6 +865,9 @@ func classifyCleanScn(s cleanScn) ([]string, bool) {
 			}
 			if s.ForeignTmp {
 				cls = append(cls, "tmpdir_on_another_file_system")
+			}
+			if s.StandaloneOnly {
+				cls = append(cls, "only_standalone_calls_in_the_process")
 			}
 			if len(s.RunUpdate) > 0 {
 				cls = append(cls, "configs_carry_an_update_option_in_the_run")
